@@ -213,6 +213,20 @@ where
         verbose: 0,
         ..Config::default()
     };
+    if let Some(len) = *REGEN_ONLY.lock().unwrap() {
+        let hist: RefCell<std::collections::VecDeque<Value>> = RefCell::new(std::collections::VecDeque::new());
+        let mut regen = TestRunner::new(Config { max_shrink_iters: 0, ..config });
+        let _ = regen.run(&strategy, |c| {
+            let mut h = hist.borrow_mut();
+            h.push_back(serde_json::to_value(&c).unwrap_or(Value::Null));
+            if h.len() > len {
+                h.pop_front();
+            }
+            Ok(())
+        });
+        stats.failure_history = hist.into_inner().into_iter().collect();
+        return None;
+    }
     let mut runner = TestRunner::new(config);
     let cases_before = stats.cases;
     let st = RefCell::new(std::mem::take(stats));
@@ -269,7 +283,7 @@ where
         let _ = regen.run(&strategy, |c| {
             let mut h = hist.borrow_mut();
             h.push_back(serde_json::to_value(&c).unwrap_or(Value::Null));
-            if h.len() > HISTORY_LEN {
+            if h.len() > history_len() {
                 h.pop_front();
             }
             Ok(())
@@ -311,6 +325,15 @@ where
 
 /// How many preceding cases a worker hands over with a failure.
 pub const HISTORY_LEN: usize = 48;
+
+/// `VERIF_HISTORY_LEN` overrides the length (used to exercise the longer-history fallback).
+fn history_len() -> usize {
+    std::env::var("VERIF_HISTORY_LEN").ok().and_then(|v| v.parse().ok()).unwrap_or(HISTORY_LEN)
+}
+
+/// `Some(len)`: `run_typed` only generates (no checks) and keeps the last `len` cases in
+/// `Stats::failure_history` (used by `--regen` to obtain a longer history of a worker).
+pub static REGEN_ONLY: std::sync::Mutex<Option<usize>> = std::sync::Mutex::new(None);
 
 pub fn replay_typed<C, F>(case: &Value, stats: &mut Stats, check: F) -> Result<CheckResult, String>
 where
@@ -487,14 +510,15 @@ pub fn run_property(p: &dyn Property, tier: Tier, seed: u64) -> RunOutcome {
     }
 
     let mut workers_failed = 0u64;
-    let mut histories: BTreeMap<String, Vec<Value>> = BTreeMap::new();
-    for (mut st, r) in results {
+    let mut histories: BTreeMap<String, (Vec<Value>, u64, u64)> = BTreeMap::new();
+    for (t, (mut st, r)) in results.into_iter().enumerate() {
         let hist = std::mem::take(&mut st.failure_history);
+        let k = st.cases;
         total.merge(st);
         if let Some((case, fl)) = r {
             workers_failed += 1;
             if !hist.is_empty() {
-                histories.entry(fl.signature.clone()).or_insert(hist);
+                histories.entry(fl.signature.clone()).or_insert((hist, t as u64, k));
             }
             failures.push((case, fl, "generated".into()));
         }
@@ -515,7 +539,7 @@ pub fn run_property(p: &dyn Property, tier: Tier, seed: u64) -> RunOutcome {
     failures.dedup_by(|b, a| a.1.signature == b.1.signature);
     for (case, fl, origin) in &failures {
         if fl.signature.starts_with("flaky/") {
-            if let Some((hcase, hfl)) = histories.get(&fl.signature).and_then(|h| confirm_history(p, h)) {
+            if let Some((hcase, hfl)) = histories.get(&fl.signature).and_then(|h| confirm_with_longer_histories(p, tier, seed, per, h)) {
                 report_history_violation(p, &hcase, &hfl, &mut seen, &mut violations);
                 continue;
             }
@@ -564,7 +588,7 @@ pub fn run_property(p: &dyn Property, tier: Tier, seed: u64) -> RunOutcome {
         if !confirmed {
             // the failure may depend on what the library remembers from earlier calls: replay
             // the worker's preceding cases, in order, in a fresh process
-            if let Some((hcase, hfl)) = histories.get(&fl.signature).and_then(|h| confirm_history(p, h)) {
+            if let Some((hcase, hfl)) = histories.get(&fl.signature).and_then(|h| confirm_with_longer_histories(p, tier, seed, per, h)) {
                 report_history_violation(p, &hcase, &hfl, &mut seen, &mut violations);
                 continue;
             }
@@ -802,6 +826,63 @@ fn confirm_history(p: &dyn Property, history: &[Value]) -> Option<(Value, Failur
         }
     }
     Some((serde_json::json!({"history": cur}), fl))
+}
+
+/// The worker's last 48 cases first; when they do not reproduce the failure (the state may stem from a
+/// much earlier call) the worker's cases are generated again in a fresh process and its last 400, then
+/// 4000 cases are tried.
+fn confirm_with_longer_histories(p: &dyn Property, tier: Tier, seed: u64, per: u64, h: &(Vec<Value>, u64, u64)) -> Option<(Value, Failure)> {
+    let (hist, worker, k) = h;
+    if let Some(r) = confirm_history(p, hist) {
+        return Some(r);
+    }
+    let _ = per;
+    for len in [400u64, 4000] {
+        if *k <= history_len() as u64 || (len > 400 && *k <= 400) {
+            break;
+        }
+        let dir = verif_root().join("out").join("tmp");
+        std::fs::create_dir_all(&dir).ok()?;
+        let file = dir.join(format!("regen-{}-{}-{len}.json", p.id(), std::process::id()));
+        let ok = std::process::Command::new(std::env::current_exe().ok()?)
+            .args(["--regen", p.id(), tier.name(), &seed.to_string(), &worker.to_string(), &k.to_string(), &len.to_string()])
+            .arg(&file)
+            .stdin(std::process::Stdio::null())
+            .stdout(std::process::Stdio::null())
+            .stderr(std::process::Stdio::null())
+            .status()
+            .map(|s| s.success())
+            .unwrap_or(false);
+        let long: Option<Vec<Value>> = if ok { std::fs::read_to_string(&file).ok().and_then(|t| serde_json::from_str(&t).ok()) } else { None };
+        let _ = std::fs::remove_file(&file);
+        if let Some(r) = long.and_then(|l| confirm_history(p, &l)) {
+            return Some(r);
+        }
+    }
+    None
+}
+
+/// Entry point of `hpo_verif --regen <ID> <tier> <seed> <worker> <cases> <len> <file>`: writes the last
+/// `len` of the first `cases` cases of that worker as a JSON array.
+pub fn regen_main(p: &dyn Property, tier: Tier, seed: u64, index: u64, cases: u64, len: usize, file: &Path) -> i32 {
+    set_current_prop(p.id());
+    *REGEN_ONLY.lock().unwrap() = Some(len);
+    let hist = std::thread::scope(|sc| {
+        std::thread::Builder::new()
+            .stack_size(256 << 20)
+            .spawn_scoped(sc, || {
+                let mut st = Stats::default();
+                let _ = p.run_generated(tier, thread_seed(seed, p.id(), index), cases, &mut st);
+                st.failure_history
+            })
+            .expect("spawn")
+            .join()
+            .unwrap_or_default()
+    });
+    match std::fs::write(file, serde_json::to_string(&hist).unwrap_or_default()) {
+        Ok(()) => 0,
+        Err(_) => 2,
+    }
 }
 
 /// Replays one case; a case of the form `{"history": [c1, .., cn]}` is a sequence of cases replayed
